@@ -80,6 +80,32 @@ for f in ('bellatrix', 'capella', 'deneb'):
     if f != 'bellatrix':
         ex.append('//@   ensures c03_parent: err == nil ==> !st_exhdr_err_%s(state) && !exhdr_raw_err_%s(st_exhdr_%s(state)) && old(%s.ParentHash) == old(exhdr_raw_%s(st_exhdr_%s(state)).BlockHash)' % (f, f, f, plf, f, f))
     EXTRA['eth2/beacon/%s:ProcessExecutionPayload' % f] += ex
+# weigh_justification_and_finalization (C02), observed through the state setters (ghost records)
+PROPS['eth2/beacon/phase0:ProcessEpochJustification'] = ' C02'
+_J = 'old(data.CurrentEpoch)'
+_PREM = 'err == nil && spec != nil && state != nil && spec.SLOTS_PER_EPOCH != 0 && old(data.CurrentEpoch) > 1 && old(data.TotalActiveStake) < 4611686018427387904 && old(data.PrevEpochUnslashedTargetStake) < 4611686018427387904 && old(data.CurrEpochUnslashedTargetStake) < 4611686018427387904'
+_PJ = 'old(data.PrevEpochUnslashedTargetStake) * 3 >= old(data.TotalActiveStake) * 2'
+_CJ = 'old(data.CurrEpochUnslashedTargetStake) * 3 >= old(data.TotalActiveStake) * 2'
+_B1 = '((st_jbits(state)[0] * 2) % 16)'
+_NB = '(' + _B1 + ' + ite(' + _PJ + ' && !jbit(' + _B1 + ', 1), 2, 0) + ite(' + _CJ + ' && !jbit(' + _B1 + ', 0), 1, 0))'
+EXTRA['eth2/beacon/phase0:ProcessEpochJustification'] = [
+    '//@   assigns ghost(n_set_prevjust), ghost(set_prevjust), ghost(n_set_curjust), ghost(set_curjust), ghost(n_set_fin), ghost(set_fin), ghost(n_set_jbits), ghost(set_jbits)',
+    '//@   ensures c02_genesis: err == nil && old(data.CurrentEpoch) <= 1 ==> n_set_prevjust == old(n_set_prevjust) && n_set_curjust == old(n_set_curjust) && n_set_fin == old(n_set_fin) && n_set_jbits == old(n_set_jbits)',
+    '//@   ensures c02_rotate: ' + _PREM + ' ==> n_set_prevjust == old(n_set_prevjust) + 1 && set_prevjust == st_curjust(state)',
+    '//@   ensures c02_bits: ' + _PREM + ' ==> n_set_jbits == old(n_set_jbits) + 1 && set_jbits[0] == ' + _NB,
+    '//@   ensures c02_justify_current: ' + _PREM + ' && ' + _CJ + ' ==> n_set_curjust == old(n_set_curjust) + 1 && set_curjust.Epoch == ' + _J + ' && set_curjust.Root == roots_at(st_broots(state), ' + _J + ' * spec.SLOTS_PER_EPOCH)',
+    '//@   ensures c02_justify_previous: ' + _PREM + ' && !(' + _CJ + ') && ' + _PJ + ' ==> n_set_curjust == old(n_set_curjust) + 1 && set_curjust.Epoch == ' + _J + ' - 1 && set_curjust.Root == roots_at(st_broots(state), (' + _J + ' - 1) * spec.SLOTS_PER_EPOCH)',
+    '//@   ensures c02_justify_none: ' + _PREM + ' && !(' + _CJ + ') && !(' + _PJ + ') ==> n_set_curjust == old(n_set_curjust)',
+    '//@   ensures c02_fin_4: ' + _PREM + ' && st_prevjust(state).Epoch < 4611686018427387904 && st_curjust(state).Epoch < 4611686018427387904 && jbit(set_jbits[0], 0) && jbit(set_jbits[0], 1) && st_curjust(state).Epoch + 1 == ' + _J + ' ==> n_set_fin == old(n_set_fin) + 1 && set_fin == st_curjust(state)',
+    '//@   ensures c02_fin_3: ' + _PREM + ' && st_prevjust(state).Epoch < 4611686018427387904 && st_curjust(state).Epoch < 4611686018427387904 && jbit(set_jbits[0], 0) && jbit(set_jbits[0], 1) && jbit(set_jbits[0], 2) && st_curjust(state).Epoch + 2 == ' + _J + ' ==> n_set_fin == old(n_set_fin) + 1 && set_fin == st_curjust(state)',
+    '//@   ensures c02_fin_2: ' + _PREM + ' && st_prevjust(state).Epoch < 4611686018427387904 && st_curjust(state).Epoch < 4611686018427387904 && !(jbit(set_jbits[0], 0) && jbit(set_jbits[0], 1) && st_curjust(state).Epoch + 1 == ' + _J + ') && !(jbit(set_jbits[0], 0) && jbit(set_jbits[0], 1) && jbit(set_jbits[0], 2) && st_curjust(state).Epoch + 2 == ' + _J + ') && jbit(set_jbits[0], 1) && jbit(set_jbits[0], 2) && (st_prevjust(state).Epoch + 2 == ' + _J + ' || (jbit(set_jbits[0], 3) && st_prevjust(state).Epoch + 3 == ' + _J + ')) ==> n_set_fin == old(n_set_fin) + 1 && set_fin == st_prevjust(state)',
+    '//@   ensures c02_fin_none: ' + _PREM + ' && st_prevjust(state).Epoch < 4611686018427387904 && st_curjust(state).Epoch < 4611686018427387904 && !(jbit(set_jbits[0], 0) && jbit(set_jbits[0], 1) && st_curjust(state).Epoch + 1 == ' + _J + ') && !(jbit(set_jbits[0], 0) && jbit(set_jbits[0], 1) && jbit(set_jbits[0], 2) && st_curjust(state).Epoch + 2 == ' + _J + ') && !(jbit(set_jbits[0], 1) && jbit(set_jbits[0], 2) && st_prevjust(state).Epoch + 2 == ' + _J + ') && !(jbit(set_jbits[0], 1) && jbit(set_jbits[0], 2) && jbit(set_jbits[0], 3) && st_prevjust(state).Epoch + 3 == ' + _J + ') ==> n_set_fin == old(n_set_fin)']
+# the per-fork epoch transitions (and what calls them) may record justification / finalization updates
+_JG = '//@   assigns ghost(n_set_prevjust), ghost(set_prevjust), ghost(n_set_curjust), ghost(set_curjust), ghost(n_set_fin), ghost(set_fin), ghost(n_set_jbits), ghost(set_jbits)'
+for f in ('phase0', 'altair', 'bellatrix', 'capella', 'deneb'):
+    EXTRA.setdefault('eth2/beacon/%s:BeaconStateView.ProcessEpoch' % f, []).append(_JG)
+for k in ('eth2/beacon/common:ProcessSlots', 'eth2/beacon/common:StateTransition'):
+    EXTRA.setdefault(k, []).append(_JG)
 sig = re.compile(r'^func (\((\w+) (\*?)(\w+)\) )?(\w+)\((.*)\) (.*) \{$')
 out = collections.defaultdict(list)
 for root, _, files in os.walk(os.path.join(REPO, 'eth2/beacon')):
